@@ -1,124 +1,471 @@
+// C08 -- lake query results are independent of the degree of parallelism.
+//
+// specs/ParScan.tla transcribes the parallel planner (Parallelize,
+// concurrentPath, liftIntoParPaths), the shared Lister/Slicer, the scan of a
+// partition, the merge/combine fan-in and the partial aggregation split, next
+// to a reference semantics of a small operator alphabet.  TLC explores every
+// interleaving of the legs' pulls for every (pool layout, direction, program,
+// leg count) of the configured universe, checks that the parallel result
+// equals the sequential one (as a sequence, up to ties of a sort key, or as a
+// multiset -- whichever the program defines), and exports cases: layout,
+// program, predicted plan, predicted Lister order, a leg schedule, predicted
+// results.  This harness builds the real pools, runs the real query at
+// parallelism 1 and at parallelism N with the legs' pulls FORCED into the
+// exported schedule (gate.go), compares real-N with real-1 (the property),
+// real-1 / real-N / the real plan with the spec's predictions (binding), and
+// has TLC replay the recorded hook traces through the spec's own PullStep
+// (specs/ParScanTrace.tla).
 package main
 
 import (
 	"context"
+	"encoding/json"
 	"fmt"
+	"math/rand"
 	"os"
+	"path/filepath"
+	"runtime"
+	"sort"
+	"strconv"
 	"strings"
+	"time"
 
-	zed "github.com/brimdata/super"
-	"github.com/brimdata/super/compiler"
-	"github.com/brimdata/super/compiler/data"
-	"github.com/brimdata/super/pkg/storage"
-	"github.com/brimdata/super/runtime"
 	"github.com/brimdata/super/zfmt"
 
-	"verif/lakeh"
+	"verif/core"
 )
 
-func main() {
-	ctx := context.Background()
-	store := lakeh.NewMemStore()
-	lk, err := lakeh.Create(ctx, store, 0, nil)
-	if err != nil {
-		panic(err)
-	}
-	dir := "asc"
-	if len(os.Args) > 2 {
-		dir = os.Args[2]
-	}
-	thresh := int64(1)
-	if os.Getenv("THRESH") != "" {
-		fmt.Sscan(os.Getenv("THRESH"), &thresh)
-	}
-	id, err := lk.CreatePool(ctx, "p", "k", dir, 0, thresh)
-	if err != nil {
-		panic(err)
-	}
-	loads := []string{
-		"{k:1,g:\"a\",u:1,x:1}\n{k:3,g:\"b\",u:2,x:2}\n{k:\"s\",g:\"a\",u:3}",
-		"{k:2,g:\"b\",u:4,x:1}\n{k:3,g:\"a\",u:5,x:null}\n{k:null,g:\"a\",u:6,x:1}\n{g:\"b\",u:7,x:2}\n{k:null,g:\"b\",u:8}\n{g:\"a\",u:9,x:2}",
-	}
-	if os.Getenv("LOADS") != "" {
-		loads = strings.Split(os.Getenv("LOADS"), ";")
-	}
-	for _, l := range loads {
-		if _, err := lk.LoadZSON(ctx, id, "main", l); err != nil {
-			panic(err)
+type harness struct {
+	c      *core.Ctx
+	e      *env
+	traces []traceJ
+	byID   map[int]*ran
+	feat   map[string]int
+}
+
+// traceJ is one record of traces.ndjson (see ParScanTrace.tla).
+type traceJ struct {
+	ID     int      `json:"id"`
+	Lay    [][]val  `json:"lay"`
+	Desc   bool     `json:"desc"`
+	Prog   []string `json:"prog"`
+	N      int      `json:"n"`
+	Events [][2]any `json:"events"`
+	Want   bool     `json:"want"`
+}
+
+// ran remembers a real execution until its TLC verdict arrives.
+type ran struct {
+	cs   *caseJ
+	src  string
+	rN   []canonRow
+	rNn  []string
+	mode string
+}
+
+type witness struct {
+	Loads    [][]string `json:"loads"`
+	Desc     bool       `json:"desc"`
+	Thresh   int64      `json:"thresh"`
+	Prog     []string   `json:"prog"`
+	N        int        `json:"n"`
+	Schedule []int      `json:"schedule,omitempty"`
+	Procs    int        `json:"gomaxprocs,omitempty"`
+	Mode     string     `json:"mode"`
+	ByF      string     `json:"byf,omitempty"`
+	Query    string     `json:"query"`
+	Plan     string     `json:"plan,omitempty"`
+	Par1     []string   `json:"par1"`
+	ParN     []string   `json:"parN"`
+	Err      string     `json:"error,omitempty"`
+}
+
+func main() { core.Main("C08", "model_checking", run) }
+
+func loadsOf(objs [][]mrow) [][]string {
+	out := make([][]string, len(objs))
+	for i, o := range objs {
+		for _, r := range o {
+			out[i] = append(out[i], rowZSON(r))
 		}
 	}
-	objs, _ := lk.Objects(ctx, "p", "main")
-	for _, o := range objs {
-		fmt.Printf("obj %s [%s,%s] n=%d\n", o.ID[:6], o.Min, o.Max, o.Count)
+	return out
+}
+
+func cfgText(name string, repl map[string]string) (string, error) {
+	b, err := os.ReadFile(filepath.Join(core.VerifDir, "specs", "cfg", name))
+	if err != nil {
+		return "", err
 	}
-	src := data.NewSource(storage.NewRemoteEngine(), lk.Root)
-	for _, prog := range strings.Split(os.Args[1], ";") {
-		prog = strings.TrimSpace(prog)
-		seq, _, err := compiler.Parse(prog)
+	s := string(b)
+	for k, v := range repl {
+		if !strings.Contains(s, k) {
+			return "", fmt.Errorf("cfg %s has no %q", name, k)
+		}
+		s = strings.Replace(s, k, v, 1)
+	}
+	return s, nil
+}
+
+func parseCases(res *core.TLCResult) ([]caseJ, error) {
+	var out []caseJ
+	for _, line := range res.Prints {
+		if !strings.HasPrefix(line, `"{`) {
+			continue
+		}
+		s, err := strconv.Unquote(line)
 		if err != nil {
-			fmt.Println("PARSE", prog, err)
-			continue
+			return nil, fmt.Errorf("cannot unquote TLC case line: %v", err)
 		}
-		if os.Getenv("DIFF") != "" {
-			r1, e1 := lk.QueryPar(ctx, prog, 1)
-			for _, par := range []int{2, 3, 8} {
-				rn, en := lk.QueryPar(ctx, prog, par)
-				tag := "same"
-				if fmt.Sprint(r1, e1) != fmt.Sprint(rn, en) {
-					tag = "SEQDIFF"
-					if fmt.Sprint(lakeh.Multiset(r1), e1) != fmt.Sprint(lakeh.Multiset(rn), en) {
-						tag = "BAGDIFF"
-					}
-				}
-				if tag != "same" {
-					fmt.Printf("%s par=%d %s\n  1: %v %v\n  n: %v %v\n", tag, par, prog, r1, e1, rn, en)
-				}
-			}
-			continue
+		var cs caseJ
+		if err := json.Unmarshal([]byte(s), &cs); err != nil {
+			return nil, fmt.Errorf("cannot decode TLC case: %v: %.300s", err, s)
 		}
-		pars := []int{1, 3}
-		if os.Getenv("PARS") == "1" {
-			pars = []int{1}
-		}
-		for _, par := range pars {
-			rctx := runtime.NewContext(ctx, zed.NewContext())
-			job, err := compiler.NewJob(rctx, seq, src, nil)
-			if err != nil {
-				fmt.Println("JOB", err)
-				continue
-			}
-			if err := job.Optimize(); err != nil {
-				fmt.Println("OPT", err)
-				continue
-			}
-			if par > 1 {
-				if err := job.Parallelize(par); err != nil {
-					fmt.Println("PAR", err)
-					continue
-				}
-			}
-			fmt.Printf("=== %s  (par %d)\n%s\n", prog, par, zfmt.DAG(job.Entry()))
-			if par > 1 && os.Getenv("SCHED") != "" {
-				var sched []int
-				for _, f := range strings.Split(os.Getenv("SCHED"), ",") {
-					var n int
-					fmt.Sscan(f, &n)
-					sched = append(sched, n)
-				}
-				site := "meta.Lister.Pull.enter"
-				if strings.Contains(zfmt.DAG(job.Entry()), "slicer") {
-					site = "meta.Slicer.Pull.enter"
-				}
-				g := newGate(site, sched, par)
-				g.start()
-				rows, err := lk.QueryPar(ctx, prog, par)
-				ev, gerr := g.finish()
-				fmt.Println(rows, err)
-				fmt.Println("events", ev, gerr, "polls", g.polls)
-				continue
-			}
-			rows, err := lk.QueryPar(ctx, prog, par)
-			fmt.Println(rows, err)
+		out = append(out, cs)
+	}
+	return out, nil
+}
+
+func run(c *core.Ctx) error {
+	ctx := context.Background()
+	e, err := newEnv(ctx)
+	if err != nil {
+		return err
+	}
+	h := &harness{c: c, e: e, byID: map[int]*ran{}, feat: map[string]int{}}
+	c.Trust("TLC 1.8; the verif hooks meta.Lister.Pull.enter/object and meta.Slicer.Pull.enter; the quiescence detector of the leg scheduler (runtime.Stack states); zson parser/formatter used to project results")
+	c.Assume("pool key k over {1,2,3,\"s\",null,missing}; <= 4 objects of <= 3 values in the TLC universe; 2..3 legs under forced schedules, 2..16 legs free-running; operator alphabet of specs/ParScan.tla")
+	c.Rule("case = (pool layout, direction, program, leg count, leg schedule) exported by TLC from a terminal state of ParScan.tla, replayed on a real pool with the legs' Lister/Slicer pulls forced into that schedule, plus free-running repeats at parallelism 2..16 and GOMAXPROCS 1/2/16; non-trivial = at least two legs received data objects, or the plan splits an aggregation / lifts a sort, head or tail into the legs")
+
+	p0, err := e.buildPool("learn", false, 0, [][]string{{`{k:1,g:"a",u:1,x:1}`}})
+	if err != nil {
+		return err
+	}
+	if err := e.learnOps(p0.name); err != nil {
+		return err
+	}
+	if c.Replay != "" {
+		return h.replay()
+	}
+
+	// ---- TLC: exhaustive exploration of the leg interleavings + case export
+	type tlcRun struct {
+		cfg     string
+		emitMod int
+	}
+	runs := []tlcRun{{"ParScan.shapes.cfg", 5}, {"ParScan.grammar.cfg", 11}}
+	if !c.Quick() {
+		runs = []tlcRun{{"ParScan.shapes-thorough.cfg", 61}, {"ParScan.grammar-thorough.cfg", 53}, {"ParScan.triples.cfg", 47}}
+	}
+	if dbg := os.Getenv("VERIF_C08_CFGS"); dbg != "" { // development aid: "a.cfg:5,b.cfg:7"
+		runs = nil
+		for _, f := range strings.Split(dbg, ",") {
+			nm, mod, _ := strings.Cut(f, ":")
+			m, _ := strconv.Atoi(mod)
+			runs = append(runs, tlcRun{nm, m})
 		}
 	}
+	var cases []caseJ
+	for _, r := range runs {
+		txt, err := cfgText(r.cfg, map[string]string{
+			"EmitMod = 0": fmt.Sprintf("EmitMod = %d", r.emitMod),
+			"EmitRem = 0": fmt.Sprintf("EmitRem = %d", int(c.Seed%int64(r.emitMod)+int64(r.emitMod))%r.emitMod),
+		})
+		if err != nil {
+			return err
+		}
+		t0 := time.Now()
+		res := c.MustHold(core.TLCRun{Module: "ParScan", Cfg: txt, Workers: 8, Timeout: 18 * time.Minute, HeapMB: 6000})
+		if res == nil {
+			return nil
+		}
+		cs, err := parseCases(res)
+		if err != nil {
+			return err
+		}
+		res.Out, res.Prints = "", nil
+		c.Logf("TLC %s: %d states, invariants hold; %d cases exported (%.1fs)", r.cfg, res.Distinct, len(cs), time.Since(t0).Seconds())
+		if len(cs) == 0 {
+			c.Inconclusive("TLC explored %d states of %s but exported no case", res.Distinct, r.cfg)
+		}
+		cases = append(cases, cs...)
+	}
+	c.Set("cases_exported", len(cases))
+
+	// ---- replay on the real lake, schedules forced
+	rng := rand.New(rand.NewSource(c.Seed + 8))
+	budget := 45 * time.Second
+	if !c.Quick() {
+		budget = 6 * time.Minute
+	}
+	order := rng.Perm(len(cases))
+	t0 := time.Now()
+	done := 0
+	for _, i := range order {
+		if time.Since(t0) > budget {
+			break
+		}
+		if err := h.replayCase(&cases[i], len(h.traces)+1); err != nil {
+			return fmt.Errorf("case %s: %w", caseName(&cases[i]), err)
+		}
+		done++
+	}
+	c.Set("cases_replayed", done)
+	c.Logf("forced-schedule replay: %d of %d cases, %d evaluations, %d violations (%.1fs)", done, len(cases), c.Count("evaluations"), c.Violations(), time.Since(t0).Seconds())
+
+	// ---- free-running repeats over the replayed pools: parallelism x GOMAXPROCS
+	if err := h.freeRun(cases, order[:done], rng); err != nil {
+		return err
+	}
+
+	// ---- larger pools (beyond the TLC universe): the spec evaluates the
+	// sequential semantics (which comparison applies), the lake runs free
+	bigs := h.genBigs(rng)
+
+	// ---- TLC: replay of the recorded hook traces through the spec's PullStep
+	if err := h.validate(bigs, rng); err != nil {
+		return err
+	}
+	for _, k := range []string{"legs>=2 with data", "leg with >=2 partitions", "partition with >=2 objects", "leg stopped by lifted head", "partials split", "sort lifted", "combine fan-in", "merge on pool key", "desc pool", "mode exact", "mode cls", "mode bag", "schedule forced exactly"} {
+		if h.feat[k] == 0 {
+			c.Inconclusive("vacuous run: no replayed case with feature %q", k)
+		}
+	}
+	c.Set("features", h.feat)
+	return nil
+}
+
+func caseName(cs *caseJ) string {
+	return fmt.Sprintf("%s desc=%v n=%d sched=%v loads=%v", strings.Join(cs.Prog, "|"), cs.Desc, cs.N, schedOf(cs), loadsOf(cs.Objs))
+}
+
+func schedOf(cs *caseJ) []int {
+	var s []int
+	for _, p := range cs.Served {
+		s = append(s, p.Leg)
+	}
+	return s
+}
+
+func (h *harness) signature(kind string, tags []string, prog []string) string {
+	if len(tags) > 0 {
+		return kind + ":" + tags[0]
+	}
+	return kind + ":" + strings.Join(prog, "|")
+}
+
+// oracle compares a parallel result with the parallelism-1 result.
+func (h *harness) oracle(w witness, mode, byf string, det bool, r1, rN []string, errN error, tags []string) {
+	c := h.c
+	if errN != nil {
+		w.Err = errN.Error()
+		c.Violate(h.signature("error", tags, w.Prog), fmt.Sprintf("`%s` succeeds at parallelism 1 but fails at parallelism %d: %v", w.Query, w.N, errN), w)
+		return
+	}
+	if !det {
+		return
+	}
+	a, an, err1 := realRows(r1)
+	b, bn, err2 := realRows(rN)
+	if err1 != nil || err2 != nil {
+		c.Inconclusive("cannot parse results of %s: %v %v", w.Query, err1, err2)
+		return
+	}
+	diff := compare(mode, byf, a, b, an, bn)
+	if diff == "" {
+		return
+	}
+	w.Par1, w.ParN, w.Mode, w.ByF = r1, rN, mode, byf
+	what := fmt.Sprintf("`%s` returns a different %s at parallelism %d than at parallelism 1 (schedule %v): %v vs %v",
+		w.Query, map[string]string{"multiset": "multiset of values", "order": "sequence"}[diff], w.N, w.Schedule, clip(rN), clip(r1))
+	c.Violate(h.signature(diff, tags, w.Prog), what, w)
+}
+
+func clip(rows []string) string {
+	s := strings.Join(rows, " ")
+	if len(s) > 400 {
+		s = s[:400] + "..."
+	}
+	return "[" + s + "]"
+}
+
+func (h *harness) replayCase(cs *caseJ, id int) error {
+	c, e := h.c, h.e
+	loads := loadsOf(cs.Objs)
+	p, err := e.buildPool(layoutKey(cs.Objs, cs.Desc), cs.Desc, 0, loads)
+	if err != nil {
+		return err
+	}
+	src := progText(p.name, cs.Prog)
+	r1, err := e.query(src, 1)
+	if err != nil {
+		return fmt.Errorf("parallelism 1: %w", err)
+	}
+	a, _, err := realRows(r1)
+	if err != nil {
+		return err
+	}
+	want := specRows(cs.Seq.Rows)
+	if os.Getenv("VERIF_C08_CORRUPT") == "pred" && id == 3 && len(want) > 0 {
+		want[0]["u"] = "77"
+	}
+	// binding: the reference semantics against the real sequential run
+	if cs.Seq.Det {
+		if d := compare(cs.Seq.Mode, cs.Seq.ByF, want, a, keys(want), keys(a)); d != "" {
+			c.Drift("semantics: `%s` over %v (desc=%v): spec predicts %v, parallelism 1 returns %v (%s, mode %s)", strings.Join(cs.Prog, "|"), loads, cs.Desc, keys(want), clip(r1), d, cs.Seq.Mode)
+		}
+	}
+	// binding: the planner transcription against the real parallel plan
+	seq, err := e.plan(src, cs.N)
+	if err != nil {
+		return err
+	}
+	rp, tags, err := e.realPlan(seq)
+	if err != nil {
+		return err
+	}
+	sort.Strings(rp.Filter)
+	sp := cs.Plan
+	sp.Filter = append([]string(nil), sp.Filter...)
+	sort.Strings(sp.Filter)
+	if !samePlan(rp, sp) {
+		c.Drift("plan: `%s` desc=%v: spec %+v real %+v", strings.Join(cs.Prog, "|"), cs.Desc, sp, rp)
+	}
+	// the property: parallelism N under the exported schedule
+	sched := schedOf(cs)
+	rN, ev, errN := e.gated(src, cs.N, rp.Slicer, sched)
+	w := witness{Loads: loads, Desc: cs.Desc, Prog: cs.Prog, N: cs.N, Schedule: sched, Query: src, Plan: zfmt.DAG(seq), Par1: r1, ParN: rN}
+	h.oracle(w, cs.Seq.Mode, cs.Seq.ByF, cs.Seq.Det, r1, rN, errN, tags)
+
+	// the hook trace
+	tr := traceJ{ID: id, Lay: cs.Lay, Desc: cs.Desc, Prog: cs.Prog, N: cs.N}
+	legsWithData := map[int]int{}
+	exact := true
+	k := 0
+	for _, pe := range ev {
+		objs := []int{}
+		for _, o := range pe.Objects {
+			objs = append(objs, p.objIdx[o])
+		}
+		tr.Events = append(tr.Events, [2]any{pe.Leg, objs})
+		if len(objs) > 0 {
+			legsWithData[pe.Leg]++
+		}
+		if k < len(cs.Served) {
+			if cs.Served[k].Leg != pe.Leg || len(cs.Served[k].Objs) != len(objs) {
+				exact = false
+			}
+			k++
+		}
+	}
+	if k < len(cs.Served) {
+		exact = false
+	}
+	tr.Want = !exact && errN == nil
+	if os.Getenv("VERIF_C08_CORRUPT") == "trace" && id == 3 && len(tr.Events) > 0 {
+		tr.Events[0][1] = []int{9}
+	}
+	h.traces = append(h.traces, tr)
+	b, bn, _ := realRows(rN)
+	h.byID[id] = &ran{cs: cs, src: src, rN: b, rNn: bn}
+	if exact && errN == nil && cs.Seq.Det && len(cs.Taint) == 0 {
+		h.feat["schedule forced exactly"]++
+		pw := specRows(cs.ParRows)
+		if d := compare(cs.Seq.Mode, cs.Seq.ByF, pw, b, keys(pw), keys(b)); d != "" {
+			c.Drift("parallel semantics: `%s` over %v desc=%v n=%d schedule %v: spec predicts %v, real %v (%s)", strings.Join(cs.Prog, "|"), loads, cs.Desc, cs.N, sched, keys(pw), clip(rN), d)
+		}
+	}
+	// features / non-triviality
+	lifted := false
+	for _, l := range rp.Legs {
+		if strings.HasSuffix(l, ":out") {
+			h.feat["partials split"]++
+			lifted = true
+		}
+		if strings.HasPrefix(l, "S") {
+			h.feat["sort lifted"]++
+			lifted = true
+		}
+		if strings.HasPrefix(l, "H") || strings.HasPrefix(l, "T") {
+			lifted = true
+		}
+	}
+	if len(legsWithData) >= 2 {
+		h.feat["legs>=2 with data"]++
+	}
+	for _, n := range legsWithData {
+		if n >= 2 {
+			h.feat["leg with >=2 partitions"]++
+			break
+		}
+	}
+	for _, s := range cs.Served {
+		if rp.Slicer && len(s.Objs) >= 2 {
+			h.feat["partition with >=2 objects"]++
+			break
+		}
+	}
+	if len(ev) > 0 && len(rp.Legs) > 0 && strings.HasPrefix(rp.Legs[len(rp.Legs)-1], "H") && len(legsWithData) >= 1 {
+		h.feat["leg stopped by lifted head"]++
+	}
+	if rp.Fan == "combine" {
+		h.feat["combine fan-in"]++
+	} else if rp.MKey == "k" {
+		h.feat["merge on pool key"]++
+	}
+	if cs.Desc {
+		h.feat["desc pool"]++
+	}
+	h.feat["mode "+cs.Seq.Mode]++
+	if len(cs.Taint) > 0 {
+		h.feat["tainted in the spec (known defect path)"]++
+	}
+	c.Eval(fmt.Sprintf("gated|%s|%v|%s|%d|%v", layoutKey(cs.Objs, cs.Desc), cs.Desc, strings.Join(cs.Prog, "|"), cs.N, sched), len(legsWithData) >= 2 || lifted)
+	if id%97 == 1 {
+		c.Sample(map[string]any{"loads": loads, "desc": cs.Desc, "query": src, "legs": cs.N, "schedule": sched, "mode": cs.Seq.Mode,
+			"plan": rp, "trace": tr.Events, "result": rN})
+	}
+	return nil
+}
+
+// freeRun repeats replayed cases without the gate at parallelism 2..16 under
+// GOMAXPROCS 1, 2 and 16.
+func (h *harness) freeRun(cases []caseJ, idx []int, rng *rand.Rand) error {
+	c, e := h.c, h.e
+	per := 60
+	if !c.Quick() {
+		per = 1500
+	}
+	old := runtime.GOMAXPROCS(0)
+	defer runtime.GOMAXPROCS(old)
+	t0 := time.Now()
+	n := 0
+	for _, procs := range []int{1, 2, 16} {
+		runtime.GOMAXPROCS(procs)
+		for k := 0; k < per && len(idx) > 0; k++ {
+			cs := &cases[idx[rng.Intn(len(idx))]]
+			p, err := e.buildPool(layoutKey(cs.Objs, cs.Desc), cs.Desc, 0, loadsOf(cs.Objs))
+			if err != nil {
+				return err
+			}
+			src := progText(p.name, cs.Prog)
+			par := []int{2, 3, 8, 16}[rng.Intn(4)]
+			r1, err := e.query(src, 1)
+			if err != nil {
+				return err
+			}
+			var tags []string
+			if seq, err := e.plan(src, par); err == nil {
+				_, tags, _ = e.realPlan(seq)
+			}
+			rN, errN := e.query(src, par)
+			w := witness{Loads: loadsOf(cs.Objs), Desc: cs.Desc, Prog: cs.Prog, N: par, Procs: procs, Query: src, Par1: r1, ParN: rN}
+			h.oracle(w, cs.Seq.Mode, cs.Seq.ByF, cs.Seq.Det, r1, rN, errN, tags)
+			c.Eval(fmt.Sprintf("free|%s|%s|%d|%d", layoutKey(cs.Objs, cs.Desc), strings.Join(cs.Prog, "|"), par, procs), len(cs.Objs) >= 2)
+			n++
+		}
+	}
+	c.Set("free_running_runs", n)
+	c.Logf("free-running repeats: %d runs at parallelism 2..16, GOMAXPROCS 1/2/16 (%.1fs)", n, time.Since(t0).Seconds())
+	return nil
 }
